@@ -79,6 +79,39 @@ def evalIR (keys : List ExtKey) : List String → Option Bytes
     | _ => none
   | _ => none
 
+/-- walk the emitted state machine from `start` and list the visited cases in order (fuel = number of cases) -/
+def splitChain (s : SplitDec) : Nat → Nat → List Case
+  | 0, _ => []
+  | f + 1, i => match s.cases.find? (·.index == i) with
+    | some c => c :: splitChain s f c.next
+    | none => []
+
+def cutLike : List Nat → Bytes → List Bytes
+  | [], _ => []
+  | n :: ns, d => d.take n :: cutLike ns (d.drop n)
+
+/-- tie of the ENCODER model: recover the draws (chunking, index permutation, initial key, operator) from the emitted
+decoder and the plaintext, run `buildSplit` on them, and compare what it emits (start / decrypt / exit index, operator,
+every case's successor and encrypted chunk) with the real obfuscator's output -/
+def splitPlanCheck (keys : List ExtKey) (data : Bytes) (s : SplitDec) : String :=
+  let chain := splitChain s s.cases.length s.start
+  let idx := chain.map (·.index) ++ [s.decryptIndex, s.exitIndex]
+  let lens := chain.map fun c => (c.chunk.eval keys).length
+  let plan : SplitPlan := { chunks := cutLike lens data, indexes := idx, keyInit := s.decryptKey.eval keys, op := s.op.rev,
+                            sliceOps := [], byteChoices := [], keyChoice := none }
+  let m := buildSplit keys plan
+  if chain.length != s.cases.length then "differs:chain-does-not-visit-every-case"
+  else if plan.chunks.flatten != data then "differs:chunk-lengths"
+  else if m.op != s.op then "differs:op"
+  else if m.start != s.start || m.decryptIndex != s.decryptIndex || m.exitIndex != s.exitIndex then "differs:indexes"
+  else if m.decryptKey.eval keys != s.decryptKey.eval keys then "differs:key"
+  else
+    let bad := (List.range chain.length).filter fun i =>
+      match m.cases[i]?, chain[i]? with
+      | some a, some b => a.index != b.index || a.next != b.next || a.chunk.eval keys != b.chunk.eval keys
+      | _, _ => true
+    if bad.isEmpty then "ok" else s!"differs:case-{bad.headD 0}"
+
 def pKeys : Nat → List String → Option (List ExtKey × List String)
   | 0, r => some ([], r)
   | k + 1, b :: v :: r => (pKeys k r).map fun (l, r') => ({ bits := b.toNat!, value := v.toNat! } :: l, r')
@@ -93,6 +126,18 @@ def litOps : Handler := fun st f =>
       | some d => some (st, toHex d)
       | none => some (st, "!eval-failed")
     | none => some (st, "!bad-keys")
+  | "splitplanm" :: nk :: rest =>
+    match pKeys nk.toNat! rest with
+    | some (keys, dataHex :: "split" :: o :: stt :: r) =>
+      let res : Option String := do
+        let (k, r) ← pByte r
+        match r with
+        | di :: ex :: n :: r => do
+          let (cs, _) ← pMany pCase n.toNat! r
+          pure (splitPlanCheck keys (unhex dataHex) { op := opOf o, start := stt.toNat!, decryptKey := k, decryptIndex := di.toNat!, exitIndex := ex.toNat!, cases := cs })
+        | _ => none
+      some (st, res.getD "!bad-ir")
+    | _ => some (st, "!bad-keys")
   | _ => none
 
 end GV.Driver
